@@ -44,12 +44,14 @@ def run(ctx: Ctx):
               ' discipline on the stop/failure paths — CV discipline (R-C04-1),'
               ' lock balance (R-C04-3), lock-order acyclicity and no wait under'
               ' a second lock (R-C04-4), re-test after a temporary release'
-              ' (R-C04-9)', _c04_shared, m, min_instances=15)
+              ' (R-C04-9), atomic test-then-wait (R-C04-14); end-of-stream raises'
+              ' the recorded failure and marks the queue exhausted (R-C04-6)',
+              _c04_shared, m, min_instances=15)
 
 
 def _c04_shared(sub, m):
   from mlmverif.props import c04
-  for r in (c04.r1, c04.r3, c04.r4, c04.r9):
+  for r in (c04.r1, c04.r3, c04.r4, c04.r6, c04.r9, c04.r14):
     sub.guard(r, m)
 
 
